@@ -236,7 +236,8 @@ class Machine:
             if r.req is None:
                 r.req = req
             elif r.req is not req:
-                raise HarnessError("request identity confusion")
+                raise Violation("C06.request", f"{r}: request() returned another object than the one whose creation was observed",
+                                "C06.request/identity")
             if r.state == "creating":
                 r.state = "waiting"
                 self.waiting.append(r)
@@ -255,7 +256,7 @@ class Machine:
             r = self.cur[a]
             self.release(a, r)
             if r.state == "user":
-                raise HarnessError("model release failed")
+                raise Violation("C06.release", f"{r} still counts as a user after release() returned", "C06.release/still-user")
         elif op == "cancel":
             r = self.cur[a]
             head = bool(self.waiting) and min(self.waiting, key=lambda x: x.rank(self.fifo)) is r
